@@ -39,6 +39,9 @@ struct CommitBatch {
 	count: u32, // Number of entries in the batch
 	applied: AtomicBool,
 	complete_tx: Mutex<Option<oneshot::Sender<Result<()>>>>,
+	/// Set by the committer when its WAL write or memtable apply failed; delivered to it
+	/// (instead of Ok) when the batch is dequeued.
+	failure: Mutex<Option<Error>>,
 }
 
 impl CommitBatch {
@@ -49,6 +52,7 @@ impl CommitBatch {
 			count,
 			applied: AtomicBool::new(false),
 			complete_tx: Mutex::new(Some(tx)),
+			failure: Mutex::new(None),
 		});
 		(commit, rx)
 	}
@@ -67,6 +71,14 @@ impl CommitBatch {
 
 	fn is_applied(&self) -> bool {
 		self.applied.load(Ordering::Acquire)
+	}
+
+	fn set_failure(&self, err: Error) {
+		*self.failure.lock() = Some(err);
+	}
+
+	fn take_failure(&self) -> Option<Error> {
+		self.failure.lock().take()
 	}
 
 	fn complete(&self, result: Result<()>) {
@@ -379,10 +391,10 @@ impl CommitPipeline {
 					let stamp = seq_num + count - 1;
 					self.oracle.rollback(batch.entries.iter().map(|e| e.key.as_slice()), stamp);
 					// The batch is in `pending` and was never marked applied.
-					// Order matters: complete with Err FIRST, then mark_applied,
-					// so a concurrent publish() can't dequeue and call
-					// complete(Ok) before our Err is set.
-					commit_batch.complete(Err(e.clone()));
+					// Order matters: record the failure FIRST, then mark_applied,
+					// so a concurrent publish() can't dequeue and complete the
+					// batch with Ok before our Err is set.
+					commit_batch.set_failure(e);
 					#[cfg(surrealkv_verif)]
 					crate::verif::yieldp::yield_point("commit.fail_completed", seq_num, 0);
 					commit_batch.mark_applied();
@@ -395,7 +407,11 @@ impl CommitPipeline {
 					self.publish();
 					#[cfg(surrealkv_verif)]
 					crate::verif::yieldp::yield_point("commit.published", seq_num, 1);
-					return Err(e);
+					// Keep the semaphore permit until the batch has left the queue
+					// (it may sit behind an older batch that is still being applied):
+					// a permit per queued batch is what keeps the queue from
+					// overflowing. Whoever dequeues the batch delivers the error.
+					return complete_rx.await.map_err(|_| Error::PipelineStall)?;
 				}
 			}
 		};
@@ -428,24 +444,20 @@ impl CommitPipeline {
 		//     the memtable; a later same-key writer's higher seq shadows it.
 		// =========================================================================
 
-		let apply_err = if let Err(ref e) = apply_result {
+		if let Err(ref e) = apply_result {
 			// Roll back this txn's oracle entries so subsequent same-key
 			// commits don't false-abort against a ghost stamp.
 			let count = batch.count() as u64;
 			let stamp = allocated_seq + count - 1;
 			self.oracle.rollback(batch.entries.iter().map(|e| e.key.as_slice()), stamp);
 
-			// Order matters: complete with Err FIRST, then mark_applied below.
+			// Order matters: record the failure FIRST, then mark_applied below.
 			// Otherwise a concurrent publish() could dequeue the (already
-			// applied) batch and call complete(Ok) before our Err lands.
-			let err = Error::CommitFail(e.to_string());
-			commit_batch.complete(Err(err.clone()));
+			// applied) batch and complete it with Ok before our Err lands.
+			commit_batch.set_failure(Error::CommitFail(e.to_string()));
 			#[cfg(surrealkv_verif)]
 			crate::verif::yieldp::yield_point("commit.fail_completed", allocated_seq, 1);
-			Some(err)
-		} else {
-			None
-		};
+		}
 
 		commit_batch.mark_applied();
 		#[cfg(surrealkv_verif)]
@@ -456,10 +468,8 @@ impl CommitPipeline {
 		#[cfg(surrealkv_verif)]
 		crate::verif::yieldp::yield_point("commit.published", allocated_seq, 0);
 
-		if let Some(err) = apply_err {
-			return Err(err);
-		}
-
+		// Success and failure alike wait here (holding the semaphore permit) until the
+		// batch has been dequeued; a failed batch is completed with its recorded error.
 		complete_rx.await.map_err(|_| Error::PipelineStall)?
 	}
 
@@ -509,8 +519,11 @@ impl CommitPipeline {
 						crate::verif::yieldp::yield_point("vis.cas_fail", new_visible, current);
 					}
 
-					// Complete this batch
-					batch.complete(Ok(()));
+					// Complete this batch (with the committer's error if it failed)
+					batch.complete(match batch.take_failure() {
+						Some(err) => Err(err),
+						None => Ok(()),
+					});
 					#[cfg(surrealkv_verif)]
 					crate::verif::yieldp::yield_point("pub.completed", new_visible, 0);
 				}
